@@ -412,7 +412,9 @@ pub fn check(args: &[String]) -> i32 {
             other.insert(k.clone(), *v);
         }
     }
-    let distinct = sigs.len().max(case_hashes.len()) as u64;
+    // distinct non-trivial cases = distinct run signatures among the non-trivial runs (a lower bound:
+    // different scenarios with the same signature count once)
+    let distinct = sigs.len() as u64;
     let evidence = json!({
         "property_id": prop,
         "tier": tier,
@@ -432,7 +434,7 @@ pub fn check(args: &[String]) -> i32 {
             "scheduler_steps": steps,
             "distinct_interleavings_measure": "hash of the sequence of (thread, hook event, object) and scheduling decisions of the run (S1/S3); hash of the sequence of visited canonical states (S2/S4)",
             "distinct_interleavings": sigs.len(),
-            "distinct_case_hashes": case_hashes.len(),
+            "distinct_states_or_histories_reached": case_hashes.len(),
             "distinct_counts_are_lower_bounds_when_capped_at_per_worker": SET_CAP,
             "fault_kinds_fired": faults,
             "probes": probes,
